@@ -282,7 +282,7 @@ def walk_no_nested(node):
     while stack:
         n = stack.pop()
         yield n
-        for c in ast.iter_child_nodes(n):
+        for c in reversed(list(ast.iter_child_nodes(n))):
             if isinstance(c, (ast.FunctionDef, ast.AsyncFunctionDef, ast.ClassDef, ast.Lambda)):
                 continue
             stack.append(c)
